@@ -47,4 +47,13 @@ CHECKS.update({
             "Fix cd45fa6 repaired the empty routing tables under disable_validation=True found by this check.", ENGINE_TECH),
 })
 
+CHECKS.update({
+    "C22": ("6/C22", "Dependency graphs over <=3 resources (sync/async factories with an inner suspension point, cached/non-cached, shared sub-dependency, 1-,2-,3-cycles) injected into two overlapping steps, two invocations of a num_workers=2 step, and staggered second users x all interleavings; factory call counts, identities and cycle errors vs the documented rules.",
+            "One genuine defect (per-manager resolution bookkeeping: false cycle error under concurrency) recorded; caching clauses are exercised on the staggered schedules where resolutions do not overlap.", ENGINE_TECH),
+    "C30": ("6/C30", "2-4 runs of one instance with num_concurrent_runs 1..3 / unlimited, started together or staggered, a second instance, hard cancel of a queued run x all start/finish interleavings; runs executing steps counted in every quiescent state.",
+            "Bounded small-scope claim.", ENGINE_TECH),
+    "C31": ("6/C31", "Timeout (also simultaneous with a step completion) or cancel_run arriving at every quiescent point of chain, fan-out and delayed-retry workflows x all completion orders; terminal events, active_steps, no step after cancel, serializable context and completing resumed run.",
+            "One genuine finding (cancel during a retry delay loses the retry) recorded.", ENGINE_TECH),
+})
+
 NOT_APPLICABLE = {}
